@@ -3,7 +3,7 @@
 # /repo and run the checks on the copy; prints only what is not "held".  Default: all 17 properties.
 PATCH="$1"; shift
 PIDS="${*:-C01 C02 C03 C04 C05 C06 C07 C08 C09 C10 C11 C12 C13 C14 C15 C16 C17}"
-COPY=/var/tmp/poster-verif-benign/repo
+COPY="${VERIF_COPY:-/var/tmp/poster-verif-benign/repo}"
 mkdir -p "$COPY"
 rsync -a --delete --exclude target --exclude .git /repo/ "$COPY/"
 (cd "$COPY" && patch -p1 -s -f -i "$PATCH") || { echo "patch does not apply"; exit 9; }
